@@ -83,6 +83,11 @@ CHECKS.update({
         text="C08_keys_distinct / C08_groups_nonempty / C08_member_has_group_key / C08_partition / C08_group_is_restriction / C08_conservation hold for every buffer and key list; every generated grouped query is compared with groups and exact aggregates computed from the same query without aggregates, with the ungrouped COUNT/SUM of the binary, and with the requested order.",
         note="HashMap order is unspecified: group rows are compared as a set unless ORDER BY is given; ORDER BY over mixed integer/non-integer keys (F14) and over a non-selected key (F15) are recorded deviations outside the generated domain.",
         design="6 C08"),
+    "C11": dict(
+        technique="Coq proofs over tables regenerated from the source and alias groups regenerated from docs/usage.md (every documented alias resolves to one constructor and lexes as the right token class; name lookups are invariant under any re-casing, for all strings) + differential test of parsed queries and rows across renderings",
+        text="C11_doc_*_aliases / C11_doc_*_lex are decided by computation over the regenerated tables and the lexer model; C11_case_insensitive is proved for every string and re-casing function. On every run generated valid queries are rendered with every alias of every aliased token, case variants of every word, both bracket styles, optional tokens, full and partial argument splits; the real parser's Query and the binary's output must be identical to the canonical rendering's.",
+        note="Known finding F23: with several arguments the search root extends to the end of its argument, so partial splits that leave words after the root in the same argument change the query; the generator keeps the root alone in its argument and the witness is replayed. Unicode lower-casing of keywords is modelled as ASCII (+ Kelvin sign).",
+        design="6 C11"),
 })
 
 ALL = ["C%02d" % i for i in range(1, 21)]
